@@ -16,7 +16,11 @@ Record case := mkCase {
   c_resolute : bool;
   c_claim_run : bool;         (* the property claims "outcome of the greedy run of sat": general scheme, or fast path
                                  with a measure that really is additive *)
-  c_out : list (list nat)     (* resolute: [returned list, in returned order]; irresolute: the returned list *)
+  c_out : list (list nat);    (* resolute: [returned list, in returned order]; irresolute: the returned list *)
+  c_refuse : option (bool * bool)
+                              (* Some (raised, judge_everywhere) when tie_breaking = refuse_tie_breaking: did the call
+                                 raise TieBreakingException; is the answer judged on every election or only where the
+                                 code at HEAD and the definition agree (see [refuse_region]) *)
 }.
 
 Definition I_of (c : case) : inst := mkInst (c_costs c) (c_budget c).
@@ -62,7 +66,52 @@ Fixpoint prefixb (a l : list nat) : bool :=
    3 model   resolute outcome differs (as a set) from the model of the scheme that ran
    4 model   irresolute outcomes differ (as a set of sets) from the model
    5 model   malformed observation (resolute call with not exactly one allocation) *)
-Definition check (c : case) : list nat :=
+(* ---- refuse_tie_breaking: "raises TieBreakingException iff some round of the greedy definition has two or more
+   tied best candidates, otherwise the outcome" (no key is ever needed then).
+   None = fuel ran out (never); Some None = a round with a tie: must raise; Some (Some W) = the outcome ---- *)
+Fixpoint refuse_run (I : inst) (sat : list proj -> Q) (fuel : nat) (feas alloc : list proj)
+  : option (option (list proj)) :=
+  match feas with
+  | [] => Some (Some alloc)
+  | _ :: _ =>
+      match fuel with
+      | O => None
+      | S fuel' =>
+          match argmax_all Qx_leb (mdens I sat alloc) feas with
+          | [s] => refuse_run I sat fuel' (next_feasible I feas alloc s) (alloc ++ [s])
+          | _ => Some None
+          end
+      end
+  end.
+
+(* where every reading agrees: the very first round already has a tie (definition: raise; the code consults the rule),
+   or there is no project outside the initial allocation (nothing to do, the rule is never consulted) *)
+Definition refuse_region (I : inst) (sat : list proj -> Q) (init : list proj) : bool :=
+  Nat.leb 2 (length (argmax_all Qx_leb (mdens I sat init) (initial_feasible I init)))
+  || forallb (fun p => memb p init) (all_projects I).
+
+Definition check_refuse (c : case) (raised full : bool) : list nat :=
+  let I := I_of c in
+  let sat := sat_of c in
+  let feas := initial_feasible I (c_init c) in
+  match refuse_run I sat (length feas) feas (c_init c) with
+  | None => [5%nat]
+  | Some expected =>
+      if full || refuse_region I sat (c_init c) then
+        match expected with
+        | None => flag raised 7
+        | Some W =>
+            flag (negb raised) 7
+            ++ (if raised then []
+                else flag (forallb (fun W' => is_exhaustive I W' (all_projects I)) (c_out c)) 1
+                     ++ flag (setset_eqb (c_out c) [W]) 2)
+        end
+      else []
+  end.
+
+(* failure code 7 (oracle): under refuse_tie_breaking the call raised although no round of the definition has a tie,
+   or returned although some round has one *)
+Definition check_plain (c : case) : list nat :=
   let I := I_of c in
   let sat := sat_of c in
   let exh := forallb (fun W => is_exhaustive I W (all_projects I)) (c_out c) in
@@ -82,5 +131,11 @@ Definition check (c : case) : list nat :=
     | Some Ws => flag (setset_eqb Ws (c_out c)) 4
     | None => [4%nat]
     end.
+
+Definition check (c : case) : list nat :=
+  match c_refuse c with
+  | Some (raised, full) => check_refuse c raised full
+  | None => check_plain c
+  end.
 
 Definition run (cs : list case) : list (nat * nat) := run_cases check 0 cs.
